@@ -84,6 +84,11 @@ CHECKS = {
    technique="exhaustive product enumeration (runtimes x value trees x all marshal-option combinations x indent strings; JSON documents x unmarshal-option combinations) with structural option probes and differential decoding through the owning runtime's own JSON codec",
    text="~9.4k values of 105 types (corpus p2/p3 on gogo/legacy/gv2/gv1, the six example packages, well-known types, gogoproto extension types) x 20 option combinations: json.Valid, decode through the adapter and through the owning runtime's decoder (tree-equal to the source), indent/enum/zero-value probes on the parsed JSON, delegation to json.Marshaler/Unmarshaler, nil / typed-nil / unsupported values; unmarshal side: unknown keys and removed required fields at top level and nested x AllowUnknownFields x AllowPartialMessages.",
    note="Behaviours that the owning runtime shows identically when called directly (third-party limitations) are counted and excluded, listed in evidence. AllowPartial is documented v2-only."),
+
+ "C16": dict(level="exploration", design="DESIGN.md §7 C16",
+   technique="exhaustive product enumeration schemas x runtimes x all 16 generator option combinations through the plug-in built from the current sources, with compilation of every compilable option set",
+   text="Every corpus file (feature matrix incl. map<bool>, extension kinds, name-collision files, proto3 optional) for every runtime flavour + the repository's google-v2 example schemas x apiversion x filepermessage x enableunsafedecode x specialname: each request run twice: no error, byte-identical responses, documented and pairwise distinct (case-insensitive) file names, one file per message, every file parses; per-message function bodies identical to single-file ones; unsafe option only adds SetMode lines; 5 option sets compiled with the runtime's message types.",
+   note="No protoc in the sandbox: plug-ins are driven with hand-built CodeGeneratorRequests; third-party message types come from the pinned generators (committed under mc/gen). Invalid option values are outside the quantifier."),
 }
 
 NOT_YET = {}
